@@ -138,6 +138,7 @@ fn golden_dirs() -> Vec<String> {
 }
 
 pub fn check_item(line: &str) -> CaseOut {
+    crate::util::in_flight(line);
     let mut out = CaseOut::default();
     let t: Vec<&str> = line.split(' ').collect();
     let fail = |sig: String, detail: String| Failure { kind: "oracle".into(), signature: sig, detail, replay: line.to_string() };
